@@ -65,16 +65,6 @@ def direct(prop, ops):
                 if k in seen:
                     out.append(Finding(prop, i, sig(i, "duplicate-id"), f"spawn returned {k} again (first at op {seen[k]})"))
                 seen[k] = i
-            if op == "spawn":
-                ret = lines_of(obs, "ret #")
-                st = lines_of(obs, "st ")
-                if ret and st:
-                    n = ret[0][4:]
-                    m = re.search(re.escape(n) + r"=(\S+)", st[0])
-                    if m and m.group(1) == "x":
-                        out.append(Finding(prop, i, sig(i, "spawned-not-alive"), f"{n} returned by spawn is not alive on return"))
-                    if m and m.group(1) not in ("x", "{}"):
-                        out.append(Finding(prop, i, sig(i, "spawned-with-components"), f"{n} has components on return: {m.group(1)}"))
         # live count = created - removed is checked through the store channel against the model
         # dead ids stay dead: an ordinal shown dead must never be shown alive later
         dead = set()
